@@ -139,6 +139,19 @@ def run_shard_process(prop, spec, outpath):
     except env.MachineryError as e:
         res = new_result()
         res['inconclusive'].append(f'machinery: {e}')
+    except Exception as e:  # noqa
+        # an exception that escapes a check: if it was raised inside the compiler under test it is an observation about the
+        # compiler (an internal error on input the check considers compilable), not a harness failure
+        import traceback
+        tb = traceback.extract_tb(e.__traceback__)
+        inner = tb[-1] if tb else None
+        in_hidc = inner is not None and inner.filename.startswith(env.REPO + os.sep) and os.sep + 'hidc' + os.sep in inner.filename
+        if not in_hidc:
+            raise
+        res = new_result()
+        res['evaluations'] = 1
+        fail(res, 'M-EXC', f'{type(e).__name__}: {e} raised in {inner.filename[len(env.REPO) + 1:]}:{inner.lineno} ({inner.name}) while the check was compiling its workload',
+             {'shard': spec, 'traceback': ''.join(traceback.format_tb(e.__traceback__))[-1500:]})
     if cov_on:
         sys.monitoring.set_events(4, 0)
         res.setdefault('sets', {})['hidc_functions_entered'] = sorted(reached)
